@@ -152,20 +152,68 @@ def build_harness(name, link_repo=True, extra_flags=None, tag='asan', sources=No
     return exe
 
 
-def run_lines(exe, lines, timeout=600, env=None):
-    """feed lines to a line-protocol process; returns (rc, list of output lines, raw tail)"""
+def run_lines(exe, lines, timeout=600, env=None, stall=None):
+    """feed lines to a line-protocol process; returns (rc, list of output lines, raw tail).
+    With `stall` (seconds): the process is watched while it runs (the harnesses flush one output line per input line); if no new
+    output line appears for `stall` seconds it is killed and rc = -999 ('hang'): the first unanswered input line is the one it
+    hangs on."""
     data = ('\n'.join(lines) + '\n').encode()
     e = dict(os.environ)
     e['ASAN_OPTIONS'] = 'detect_leaks=0:abort_on_error=0'
     e['UBSAN_OPTIONS'] = 'print_stacktrace=1'
     if env:
         e.update(env)
-    p = subprocess.run([exe] if isinstance(exe, str) else exe, input=data, stdout=subprocess.PIPE,
-                       stderr=subprocess.PIPE, timeout=timeout, env=e)
-    out = p.stdout.decode('utf-8', 'replace').split('\n')
+    cmd = [exe] if isinstance(exe, str) else exe
+    if stall is None:
+        p = subprocess.run(cmd, input=data, stdout=subprocess.PIPE, stderr=subprocess.PIPE, timeout=timeout, env=e)
+        out = p.stdout.decode('utf-8', 'replace').split('\n')
+        if out and out[-1] == '':
+            out.pop()
+        return p.returncode, out, p.stderr.decode('utf-8', 'replace')[-4000:]
+    import threading
+    import tempfile
+    errf = tempfile.TemporaryFile()
+    p = subprocess.Popen(cmd, stdin=subprocess.PIPE, stdout=subprocess.PIPE, stderr=errf, env=e)
+    chunks, last = [], [time.time()]
+
+    def reader():
+        while True:
+            b = p.stdout.read1(1 << 16)
+            if not b:
+                break
+            chunks.append(b)
+            last[0] = time.time()
+
+    def writer():
+        try:
+            p.stdin.write(data)
+            p.stdin.close()
+        except (BrokenPipeError, OSError):
+            pass
+    tr, tw = threading.Thread(target=reader, daemon=True), threading.Thread(target=writer, daemon=True)
+    tr.start(); tw.start()
+    hung = False
+    t0 = time.time()
+    while p.poll() is None:
+        time.sleep(0.2)
+        if time.time() - last[0] > stall or time.time() - t0 > timeout:
+            hung = True
+            p.kill()
+            break
+    p.wait()
+    tr.join(timeout=5)
+    text = b''.join(chunks).decode('utf-8', 'replace')
+    out = text.split('\n')
     if out and out[-1] == '':
         out.pop()
-    return p.returncode, out, p.stderr.decode('utf-8', 'replace')[-4000:]
+    elif out and hung:
+        out.pop()          # an incomplete last line
+    errf.seek(0)
+    err = errf.read().decode('utf-8', 'replace')[-4000:]
+    errf.close()
+    if hung:
+        return -999, out, 'HANG: no output for %d s (killed). ' % stall + err[-1500:]
+    return p.returncode, out, err
 
 
 # ---------------------------------------------------------------------------------------------
@@ -360,6 +408,11 @@ def run_extract(ctx):
         ctx.extract_failure = out.strip()[-2000:]
         return False
     ctx.extract_failure = None
+    # per-file failures do not stop the run: the generated file then does not compile and only its dependents break
+    ctx.extract_file_failures = dict((ctx.extract_info.get('failed') or {}))
+    for k, v in (ctx.extract_info.get('Src') or {}).items():
+        if isinstance(v, dict) and v.get('error'):
+            ctx.extract_file_failures['Src:' + k] = v['error']
     return True
 
 
@@ -402,7 +455,8 @@ def _proof_step(ctx, module, theorems, extra_targets=None):
     ctx.coverage['lake_build_ok'] = ok
     if not ok:
         ctx.notes.append('lake build failed: ' + log[-3000:])
-        ctx.proof_failure = 'lake build %s failed' % module
+        ff = getattr(ctx, 'extract_file_failures', {})
+        ctx.proof_failure = 'lake build %s failed' % module + ((' (the extractor/translator no longer recognises: %s)' % '; '.join('%s: %s' % kv for kv in ff.items())[:600]) if ff else '')
         ctx.proof_log = log[-3000:]
         return False
     hits = grep_forbidden()
@@ -436,21 +490,23 @@ def _proof_step(ctx, module, theorems, extra_targets=None):
     return True
 
 
-def diff_streams(ctx, name, harness_exe, lines, describe=None, env=None):
+def diff_streams(ctx, name, harness_exe, lines, describe=None, env=None, stall=90):
     """Run implementation and model on the same lines; record stats; returns
     (impl_out, model_out, mismatches[list of indices])."""
     t0 = time.time()
-    rc_i, impl, err_i = run_lines(harness_exe, lines, env=env)
+    rc_i, impl, err_i = run_lines(harness_exe, lines, env=env, stall=stall, timeout=6 * 3600)
     # the real code died in the middle of the stream (sanitizer report, failed assert, crash): remember where, and go on
     # with the cases after it so that one fatal case does not hide the others
     died = []
     restarts = 0
-    while rc_i != 0 and len(impl) < len(lines) and restarts < 8:
+    hangs = 0
+    while rc_i != 0 and len(impl) < len(lines) and restarts < 8 and hangs < 2:
         at = len(impl)
+        hangs += 1 if rc_i == -999 else 0
         died.append((at, err_i[-2500:]))
-        impl.append('<harness died: %s>' % ' '.join(err_i[-300:].split()))
+        impl.append('<harness died: %s>' % ' '.join((err_i[:200] if err_i.startswith('HANG') else err_i[-300:]).split()))
         restarts += 1
-        rc_i, more, err_i = run_lines(harness_exe, lines[at + 1:], env=env)
+        rc_i, more, err_i = run_lines(harness_exe, lines[at + 1:], env=env, stall=stall, timeout=6 * 3600)
         impl.extend(more)
     ctx.died = getattr(ctx, 'died', {})
     ctx.died[name] = died
